@@ -40,15 +40,17 @@ def enumerate_cases(tier):
                                      simulate="num=350", depth=3, tlc_seed=seed * 16 + i, heap="2g")
         res = vc.tlc_jobs(jobs, max_parallel=5)
     else:
-        jobs["laws"] = dict(module="MC_DecArith", cfg="MC_DecArith_laws.cfg", workers=vc.workers(0.25), timeout=6000, heap="4g", coverage=True)
+        # |x|, |y| <= 500 (1M states); MC_DecArith_laws999.cfg is the same check for |values| < 1000 (4M states, not run by default)
+        jobs["laws"] = dict(module="MC_DecArith", cfg="MC_DecArith_laws.cfg", workers=vc.workers(0.3), timeout=6000, heap="4g", coverage=True)
         res = {}
-        fam = {f: dict(module="MC_DecArithCases", cfg="MC_DecArithCases_%s.cfg" % f, workers=vc.workers(0.25), timeout=6000,
+        fam = {f: dict(module="MC_DecArithCases", cfg="MC_DecArithCases_%s.cfg" % f, workers=vc.workers(0.2), timeout=6000,
                        heap="4g", coverage=True) for f in ("cast", "col", "dec")}
         jobs.update(fam)
+        jobs["core"] = dict(module="MC_DecArithCases", cfg="MC_DecArithCases_core.cfg", workers=vc.workers(0.15), timeout=3000, heap="3g")
         for i in range(2):
             jobs["sim%d" % i] = dict(module="MC_DecArithCases", cfg="MC_DecArithCases_sim.cfg", workers=1, timeout=3000,
                                      simulate="num=1000", depth=3, tlc_seed=seed * 16 + i, heap="2g")
-        res = vc.tlc_jobs(jobs, max_parallel=6)
+        res = vc.tlc_jobs(jobs, max_parallel=7)
         for name in ("laws", "cast", "col", "dec"):
             z = res[name].coverage_zero()
             if z:
